@@ -85,6 +85,7 @@ CONTRACTS = {
                  ("name", "self.name == key_display_name(key)")],
         raises={"NoteFormatError": "not is_key(key)"},
         modifies=["param:self"],
+        havoc={"self.key": "=key", "self.mode": "str", "self.signature": "int", "self.name": "str"},
         split=[{"bind": {"key": k}} for k in KEYS30] + [{"assume": "not is_key(key) and len(key) >= 1"}],
         requires="len(key) >= 1",
         properties=["C04"], battery="key_init",
